@@ -20,7 +20,8 @@ HEADLINE = ["cases", "expected_reject", "expected_accept", "accepted_runs", "req
 VERSIONS = [None, "1", "2", "2.0", "2.0.3", "2.1", "2.1.0", "2.1.4", "2.2", "2.2.0", "2.2.1", "2.3", "2.10", "2.99.7", "3", "3.0",
             "3.0.0", "3.0.1", "3.1", "4", "4.0", "10.2"]
 TRANSPORTS = ["inproc_v3sig", "inproc_v2sig", "inproc_v2strict", "inproc_v1sig", "raw_socket",
-              "inproc_v2sig_named_like_v3", "inproc_v3sig_named_like_v2"]
+              "inproc_v2sig_named_like_v3", "inproc_v3sig_named_like_v2",
+              "inproc_v2sig_factory_after_v3", "inproc_v3sig_factory_after_v2"]
 
 
 def plan(tier, seed, scale):
@@ -35,7 +36,8 @@ def vlist(v: Optional[str]) -> List[int]:
 def expected(version, explicit, transport, typ):
     """Returns ('reject', why) or ('accept', {...request shape...})."""
     v = vlist(version)
-    transport = {"inproc_v2sig_named_like_v3": "inproc_v2sig", "inproc_v3sig_named_like_v2": "inproc_v3sig"}.get(transport, transport)
+    transport = {"inproc_v2sig_named_like_v3": "inproc_v2sig", "inproc_v3sig_named_like_v2": "inproc_v3sig",
+                 "inproc_v2sig_factory_after_v3": "inproc_v2sig", "inproc_v3sig_factory_after_v2": "inproc_v3sig"}.get(transport, transport)
     if transport.startswith("inproc_v2") or transport == "inproc_v1sig":
         if v >= [3] and v < [4]:
             return "reject", "in-process simulator claims v3 without the v3 signatures"
@@ -80,15 +82,20 @@ def run_case(version, explicit_kind, transport, typ, until, C: Counter, raise_at
     else:
         cls = {"inproc_v3sig": "stubs:V3Sig", "inproc_v2sig": "stubs:V2Sig", "inproc_v2strict": "stubs:V2SigStrict",
                "inproc_v1sig": "stubs:V1Sig", "inproc_v2sig_named_like_v3": "stubs2:V3Sig",
-               "inproc_v3sig_named_like_v2": "stubs2:V2Sig"}[transport]
+               "inproc_v3sig_named_like_v2": "stubs2:V2Sig",
+               "inproc_v2sig_factory_after_v3": "stubs2:FactoryV2", "inproc_v3sig_factory_after_v2": "stubs2:FactoryV3"}[transport]
         sc = {"python": f"vlab.{cls}"}
         if cls.startswith("stubs2"):
-            # a same-named class with the *other* signatures has been started in this process before
-            w0 = mosaik.World({"G": {"python": "vlab.stubs:" + cls.split(":")[1]}}, skip_greetings=True)
+            # a same-named class with the *other* signatures has been started in this process before (for the
+            # factory classes: same module AND same qualified name)
+            first, first_v3 = {"stubs2:V3Sig": ("vlab.stubs:V3Sig", True), "stubs2:V2Sig": ("vlab.stubs:V2Sig", False),
+                               "stubs2:FactoryV2": ("vlab.stubs2:FactoryV3", True),
+                               "stubs2:FactoryV3": ("vlab.stubs2:FactoryV2", False)}[cls]
+            w0 = mosaik.World({"G": {"python": first}}, skip_greetings=True)
             try:
                 with warnings.catch_warnings():
                     warnings.simplefilter("ignore")
-                    w0.start("G", sim_id="G0", cfg={"version": "3.0" if cls.endswith("V3Sig") else "2.2", "type": "time-based"})
+                    w0.start("G", sim_id="G0", cfg={"version": "3.0" if first_v3 else "2.2", "type": "time-based"})
             finally:
                 w0.shutdown()
     if explicit is not None:
@@ -228,7 +235,9 @@ def run_slice(job: dict) -> dict:
                     res["evaluations"] += 1
                     C["cases"] += 1
                     C["transport_" + {"inproc_v2strict": "inproc_v2sig", "inproc_v2sig_named_like_v3": "inproc_same_name",
-                                      "inproc_v3sig_named_like_v2": "inproc_same_name"}.get(transport, transport)] += 1
+                                      "inproc_v3sig_named_like_v2": "inproc_same_name",
+                                      "inproc_v2sig_factory_after_v3": "inproc_same_name",
+                                      "inproc_v3sig_factory_after_v2": "inproc_same_name"}.get(transport, transport)] += 1
                     exp = expected(version, explicit, transport, typ)
                     C["expected_" + exp[0]] += 1
                     vs = judge(version, ek, transport, typ, until, result, explicit)
